@@ -384,7 +384,7 @@ def canon(v, depth=0):
 # --------------------------------------------------------------------------
 # generator of models in the documented export subset
 # --------------------------------------------------------------------------
-LOCALS = ["x", "y", "z", "a", "b", "t", "u", "i", "w"]
+LOCALS = ["x", "y", "z", "a", "b", "t", "u", "i", "w", "val"]     # "val": the name of the cache wrapper's local before /repo fix val_param
 FN_LOCALS = ["g", "h", "aux", "fn"]
 CELL_NAMES = ["foo", "bar", "baz", "qux", "c1", "c2", "min", "len", "abs"]
 INT_REFS = ["k", "r", "m1", "max", "id", "sum", "x", "a"]       # some shadow built-ins, some collide with local names
